@@ -22,14 +22,14 @@ Qed.
 
 (* anisotropic atoms: the traced is_npd() returns "not npd" exactly when U is positive definite *)
 Theorem npd_aniso_correct u11 u22 u33 u23 u13 u12 a b c al be ga : valid_cell a b c al be ga ->
-  (u22 <> 0 \/ u33 <> 0 \/ u23 <> 0 \/ u13 <> 0 \/ u12 <> 0) ->
+  (u33 <> 0 \/ u23 <> 0 \/ u13 <> 0 \/ u12 <> 0) ->
   (k_npd ROps u11 u22 u33 u23 u13 u12 a b c al be ga = 0 <-> pos_def u11 u22 u33 u23 u13 u12) /\
   (k_npd ROps u11 u22 u33 u23 u13 u12 a b c al be ga = 1 <-> ~ pos_def u11 u22 u33 u23 u13 u12).
 Proof.
   intros V A.
   rewrite k_npd_is_model. unfold npd_model.
-  assert (B : nz ROps u22 || nz ROps u33 || nz ROps u23 || nz ROps u13 || nz ROps u12 = true).
-  { destruct A as [A | [A | [A | [A | A]]]]; apply nz_R in A; rewrite A; rewrite ?orb_true_r; reflexivity. }
+  assert (B : nz ROps u33 || nz ROps u23 || nz ROps u13 || nz ROps u12 = true).
+  { destruct A as [A | [A | [A | A]]]; apply nz_R in A; rewrite A; rewrite ?orb_true_r; reflexivity. }
   rewrite B. rewrite npd_minors_R.
   destruct (ucart_symmetric u11 u22 u33 u23 u13 u12 a b c al be ga) as (S01 & S02 & S12).
   rewrite <- S01, <- S02, <- S12.
@@ -52,10 +52,10 @@ Proof.
 Qed.
 
 (* isotropic atoms (U22 = ... = U12 = 0): reported exactly for -0.5 < U <= 0 (values below -0.5 tie U to the pivot atom) *)
-Theorem npd_iso_correct u11 a b c al be ga :
-  (0 < u11 -> k_npd ROps u11 0 0 0 0 0 a b c al be ga = 0) /\
-  (-1 / 2 < u11 <= 0 -> k_npd ROps u11 0 0 0 0 0 a b c al be ga = 1) /\
-  (u11 <= -1 / 2 -> k_npd ROps u11 0 0 0 0 0 a b c al be ga = 0).
+Theorem npd_iso_correct u11 h a b c al be ga :
+  (0 < u11 -> k_npd ROps u11 h 0 0 0 0 a b c al be ga = 0) /\
+  (-1 / 2 < u11 <= 0 -> k_npd ROps u11 h 0 0 0 0 a b c al be ga = 1) /\
+  (u11 <= -1 / 2 -> k_npd ROps u11 h 0 0 0 0 a b c al be ga = 0).
 Proof.
   rewrite k_npd_is_model. unfold npd_model.
   assert (Z : nz ROps 0 = false).
